@@ -113,6 +113,7 @@ def walk(mir, header, body, tags, ops, calls_seen, depth=0):
 	if depth > 4:
 		raise Inconclusive("helper functions nested too deeply")
 	blocks = parse_blocks(body)
+	local_types = dict(re.findall(r"let (?:mut )?(_\d+): ([^;]+);", body))
 	cur = "bb0"
 	steps = 0
 	while steps < 400:
@@ -183,7 +184,7 @@ def walk(mir, header, body, tags, ops, calls_seen, depth=0):
 			elif re.search(r"Mutex<.*>::lock$", callee):
 				ops.append({"op": "lock"})
 				tags[dst] = {"GUARD"} | alltags
-			elif file_arg and not re.search(r"as Try>::branch$|FromResidual|as Deref(Mut)?>::deref(_mut)?$|::from$|unwrap$|expect$|map_err|into$|as_ref$|borrow$", callee):
+			elif file_arg and not re.search(r"as Try>::branch$|FromResidual|as Deref(Mut)?>::deref(_mut)?$|::from$|unwrap$|expect$|map_err|into$|as_ref$|borrow$|Read>::take$|Read>::by_ref$|Write>::by_ref$", callee):
 				# a helper function of the same crate? descend into it with the argument tags bound to its parameters
 				h2, b2 = function_body(mir, re.escape(callee.split("::<")[0]) + r"\(")
 				if b2 is None:
@@ -194,9 +195,19 @@ def walk(mir, header, body, tags, ops, calls_seen, depth=0):
 				tags[dst] = set(alltags) - {"SEEK_START"}
 			cur = nxt
 			continue
-		m = re.match(r"^switchInt\(.*\) -> \[0: (bb\d+)", term)
+		m = re.match(r"^switchInt\((?:move|copy) (_\d+)\) -> \[(.*)\]", term)
 		if m:
-			cur = m.group(1)
+			tl = dict(re.findall(r"(\w+): (bb\d+)", m.group(2)))
+			# which enum is being matched? `_k = discriminant(_x)` in this block, _x declared as Option<..> -> follow Some (1)
+			follow = "0"
+			for l in lines[:-1]:
+				dm = re.match(r"^%s = discriminant\((_\d+|.*?)\);$" % re.escape(m.group(1)), l)
+				if dm:
+					src = re.findall(r"_\d+", dm.group(1))
+					ty = local_types.get(src[0], "") if src else ""
+					if "Option<" in ty or "Option<" in dm.group(1):
+						follow = "1"
+			cur = tl.get(follow) or tl.get("0") or list(tl.values())[0]
 			continue
 		m = re.match(r"^goto -> (bb\d+)", term)
 		if m:
